@@ -250,6 +250,23 @@ class C17(Prop):
                 F.append('create_drawdowns on the raw equity series (first value %s) differs from 1 - value / running maximum' % (c['curve'][0][1] * c.get('raw_scale', 1.0)))
             elif not ok(float(maxdd), dr['maxdd']) or (not kn and dur != dr['duration']):
                 F.append('create_drawdowns on the raw equity series: max %s / duration %s, definition %s / %s' % (dr['maxdd'], dr['duration'], float(maxdd), dur))
+        # the Highcharts-shaped lists carry the same figures: one entry [month - 1, index of the year, 100 x return] per
+        # month of the monthly aggregates (month-major), one 100 x return per year
+        if 'monthly_hc' in js:
+            yrs = sorted(set(k[0] for k, _ in js['monthly']))
+            want_hc = sorted([k[1] - 1, yrs.index(k[0]), 100.0 * v] for k, v in js['monthly'])
+            for name_, got_hc in (('monthly_agg_returns_hc', js['monthly_hc']), ('monthly_agg_returns_hc of the exported file', a.get('file_monthly_hc'))):
+                if got_hc is None:
+                    continue
+                if [e[:2] for e in got_hc] != [e[:2] for e in want_hc]:
+                    F.append('%s lists the months %s, the monthly aggregates have %s' % (name_, [e[:2] for e in got_hc][:30], [e[:2] for e in want_hc][:30]))
+                elif not all(ok(g[2], w_[2]) for g, w_ in zip(got_hc, want_hc)):
+                    F.append('%s figures %s differ from 100 x monthly aggregates %s' % (name_, got_hc[:12], want_hc[:12]))
+            want_y = [100.0 * v for _, v in js['yearly']]
+            if len(js['yearly_hc']) != len(want_y) or not all(ok(g, w_) for g, w_ in zip(js['yearly_hc'], want_y)):
+                F.append('yearly_agg_returns_hc %s differs from 100 x yearly aggregates %s' % (js['yearly_hc'][:8], want_y[:8]))
+        if a.get('file', 'same') != 'same':
+            F.append('JSONStatistics.to_file: %s' % a['file'])
         if a.get('two_objects', 'same') != 'same':
             F.append('after a second JSONStatistics object was built for another curve, %s' % a['two_objects'])
         ru = a.get('reuse')
